@@ -357,7 +357,7 @@ func outsNetRun(c *hx.Ctx) {
 	if c.N > 0 && c.N < 24 {
 		L.budget = c.N
 	}
-	L.cw = c.NewCaseWriter("From NV Require Import lib.Outside_lib corr.Outside_corr.", "Outside_corr.case", "Outside_corr.check_case", 3000)
+	L.cw = c.NewCaseWriter("From NV Require Import lib.Outside_lib corr.Outside_corr.", "Outside_corr.case", "Outside_corr.check_case", 1000)
 	x, p1, p2, q, n := w.n(outsX), w.n(outsP1), w.n(outsP2), w.n(outsQ), w.n(outsN)
 	seq := 0
 	data := func(a, b *outsNode) func() {
